@@ -8,6 +8,35 @@ sys.path.insert(0, VERIF)
 sys.path.insert(0, os.path.join(VERIF, "vlib"))
 
 
+def generic_replay(pid, path):
+    """Re-run the scenario files saved with a violation and print what was recorded about it."""
+    import glob
+    import json
+    import common
+    path = os.path.abspath(path)
+    if os.path.isfile(path):
+        path = os.path.dirname(path)
+    vj = os.path.join(path, "violation.json")
+    if os.path.exists(vj):
+        v = json.load(open(vj))
+        print("recorded violation: key=%s seed=%s tier=%s" % (v.get("key"), v.get("seed"), v.get("tier")))
+        print("  " + str(v.get("text"))[:2000])
+    scns = sorted(glob.glob(os.path.join(path, "*.scn")))
+    if not scns:
+        print("no scenario files in %s: re-run the check with VERIF_SEED=%s to reproduce" % (path, json.load(open(vj)).get("seed") if os.path.exists(vj) else "?"))
+        return 2
+    exe = common.vbuild.tool("plain", "esim")
+    for sp in scns:
+        r = common.run_proc([exe, sp], timeout=600, cwd=path)
+        ev = common.parse_events(r["out"])
+        print("replayed %s: exit %s signal %s, %d events, last: %s" % (os.path.basename(sp), r["rc"], r["sig"], len(ev), (ev[-1].get("ev") if ev else None)))
+        outp = sp + ".events.jsonl"
+        with open(outp, "w") as f:
+            f.write(r["out"])
+        print("  event log written to " + outp)
+    return 0
+
+
 def main():
     if len(sys.argv) < 2:
         print("usage: vcheck <Cxx> --tier quick|thorough [--replay path]")
@@ -20,6 +49,8 @@ def main():
     except ImportError:
         traceback.print_exc()
         return 2
+    if args.replay and not getattr(mod, "HANDLES_REPLAY", False):
+        return generic_replay(pid, args.replay)
     try:
         return int(mod.run(args.tier, args.replay))
     except Exception:
